@@ -177,6 +177,9 @@ class Ctx:
         return rc
 
 
+BEATS = [0]  # bumped by every Local.add: the heartbeat read by vf.checks.common.watchdog
+
+
 class Local:
     """A picklable mini-context used inside worker processes, merged by ``Ctx.absorb``."""
 
@@ -188,6 +191,7 @@ class Local:
 
     def add(self, name: str, n: int = 1) -> None:
         self.counters[name] = self.counters.get(name, 0) + n
+        BEATS[0] += 1
 
     def sample(self, x: t.Any, cap: int = 4) -> None:
         if len(self.samples) < cap:
